@@ -404,8 +404,9 @@ def comp_stages(tier, seed, battery, n=None, ln=None):
     for s in (["compound/i8+u16"] if q else ["compound/i8+u16", "compound/u8+str", "compound/u8+f32"]):
         st.append(Stage("sim", s, "tuplefan", "q", battery, num=(1 if q else 4), depth=(480 if q else 1000), ramp=True,
                         invs=["SizeOK", "AllOK"], every=False, start_full=True))
-        if not q:
-            st.append(Stage("sim", s, "tuplefan", "q", battery, num=4, depth=900, ramp=True, invs=["SizeOK", "AllOK"], every=False))
+        # ... and filled from empty (insert positions in 16-slot nodes whose upper lanes hold bytes >= 0x80)
+        st.append(Stage("sim", s, "tuplefan", "q", battery, num=(1 if q else 4), depth=(220 if q else 900), ramp=True, invs=["SizeOK", "AllOK"],
+                        every=False, batevery=4))
     st.append(Stage("random", "compound/u64+u64+u8", "tuplelong", "q", battery, n=(5 if q else 20), len=(40 if q else 90), batevery=1, dumpevery=3))
     schemas = rand_schemas(seed, 4 if q else 20)
     for i, s in enumerate(schemas):
